@@ -387,3 +387,13 @@ case("C03", "args-cast-to-model-dtype", "VIOLATION", [(P, "args_ = [a[start:end]
 case("C03", "args-moved-with-cuda", "HOLDS", [(P, "args_ = [a[start:end].to(device) for a in args]", "args_ = [a[start:end].contiguous().to(device) for a in args]")])
 case("C04", "refs-from-grad-tensor", "VIOLATION", [(D, "\t\t\t\t_X = X[Xi].cpu()\n", "\t\t\t\t_X = X[Xi].cpu().requires_grad_()\n")], "REFGRAD", "deep_lift_shap.deep_lift_shap")
 case("C01", "start-truthiness", "VIOLATION", [(E, "\tif start is not None:\n\t\tif start < 0 or start > (X.shape[-1] - motif.shape[-1]):", "\tif start:\n\t\tif start < 0 or start > (X.shape[-1] - motif.shape[-1]):")], "NONE-TEST", "ersatz.substitute")
+
+
+# ------------------------------------------------------------------ rules added after the fifth round of seeds
+_ABL = "tangermeme/ablate.py"
+case("C08", "ablate-mutable-default", "VIOLATION", [(_ABL, "additional_func_kwargs=None, **kwargs):", "additional_func_kwargs={}, **kwargs):"),
+                                                    (_ABL, "\tadditional_func_kwargs = additional_func_kwargs or {}\n", "")], "STATE", "ablate.ablate")
+case("C06", "flush-in-set-order", "VIOLATION", [(D, "\t\t\t\twhile len(attr_) >= n_shuffles:\n", "\t\t\t\tfor _done in set(Xi):\n\t\t\t\t\treferences_.append(_done)\n\t\t\t\twhile len(attr_) >= n_shuffles:\n")], "SET-ORDER", "deep_lift_shap.deep_lift_shap")
+case("C04", "projection-before-convergence-check", "VIOLATION", [(D, "\t\t\t\t\t# Check that the prediction-difference-from-reference is equal to\n", "\t\t\t\t\tif raw_outputs == False:\n\t\t\t\t\t\tmultipliers = hypothetical_attributions((multipliers,), (_X,), (_references,))[0]\n\t\t\t\t\t# Check that the prediction-difference-from-reference is equal to\n")], "HALVES", "deep_lift_shap.deep_lift_shap")
+case("C17", "mask-from-filtered-loci", "VIOLATION", [(MT, "\tloci_chroms = numpy.unique(loci['chrom'])\n", "\tloci = loci[loci['start'] > 0]\n\tloci_chroms = numpy.unique(loci['chrom'])\n")], "MASK", "match.extract_matching_loci")
+case("C03", "args-check-one-sided", "VIOLATION", [(P, "\t\t\tif arg.shape[0] != X.shape[0]:", "\t\t\tif arg.shape[0] < X.shape[0]:")], "ARGS-CHECK", "predict.predict")
